@@ -210,5 +210,5 @@ func trunc(b []byte) string {
 var CrossCheck = harness.Define(harness.Opts{
 	Name:  "trillian-crosscheck",
 	Rule:  "the duplicate-free part of a generated history replayed against two front ends, one on the reference backend and one on the real Trillian log server (in-memory storage, log.IntegrateBatch as sequencer), same clock and root timestamps: SCT fields, STH size / root / timestamp and every read response body (consistency proofs, inclusion proofs by hash, entries, entry-and-proof) must be identical. Non-trivial: >= 2 leaves sequenced",
-	Quick: 150, Thorough: 1500,
+	Quick: 150, Thorough: 800,
 }, genCross, checkCross)
